@@ -186,7 +186,13 @@ impl<T: BitRead> PackedRead for T {
     #[inline]
     fn read_semi_constrained_whole_number(&mut self, lower_bound: i64) -> Result<i64, Error> {
         let n = self.read_non_negative_binary_integer(None, None)?;
-        Ok((n as i64) + lower_bound)
+        if n > i64::MAX as u64 {
+            return Err(ErrorKind::ValueExceedsMaxInt.into());
+        }
+        match (n as i64).checked_add(lower_bound) {
+            Some(value) => Ok(value),
+            None => Err(ErrorKind::ValueExceedsMaxInt.into()),
+        }
     }
 
     /// ITU-T X.691 | ISO/IEC 8825-2:2015, chapter 11.8
@@ -386,9 +392,12 @@ impl<T: BitRead> PackedRead for T {
         extensible: bool,
     ) -> Result<u64, Error> {
         if extensible && self.read_bit()? {
-            Ok(self.read_normally_small_length()? + std_variants)
+            match self.read_normally_small_length()?.checked_add(std_variants) {
+                Some(index) => Ok(index),
+                None => Err(ErrorKind::ValueExceedsMaxInt.into()),
+            }
         } else {
-            self.read_non_negative_binary_integer(None, Some(std_variants - 1))
+            self.read_non_negative_binary_integer(None, Some(std_variants.saturating_sub(1)))
         }
     }
 }
